@@ -118,7 +118,8 @@ def render_tokens(toks, rng, vec, base_indent):
                     out.append('\n' + base_indent + ' ' * rng.randint(0, 9))
                     broke = True
                 elif depth == 0 and vec['cont'] and rng.random() < 0.12 and prev.type != tokenize.STRING and t.type != tokenize.STRING:
-                    out.append(' \\\n' + base_indent + ' ' * rng.randint(1, 6))
+                    # (a continuation line may start anywhere, also left of the statement's own indentation)
+                    out.append(' \\\n' + ' ' * rng.randint(0, len(base_indent.expandtabs(8)) + 6))
                     broke = True
                 if not broke:
                     out.append(sep)
